@@ -30,7 +30,7 @@ def rand_rec(rng):
     elif c < 0.7:
         rid = TEMP
     elif c < 0.85:
-        rid = rng.choice([0x0001, 0x0041, 0x0100, 0x0226, 0x7FFF, 0xFFFF, rng.randrange(65536)])
+        rid = rng.choice([0x0000, 0x0001, 0x0041, 0x0100, 0x0226, 0x7FFF, 0xFFFF, rng.randrange(65536)])
     else:
         rid = rng.choice([0x0214, 0x0212, 0x0210, 0x0215, 0x021F, 0x0048, 0x0043])
     sz = rng.choice([0, 1, 1, 1, 1, 2, 3, 4, 5, 6, 7, 8, 9, 10])
@@ -51,7 +51,7 @@ def lists(ctx: Ctx):
             r = {"id": rid, "data": [v] if rid != TEMP else [v, 60, 34, 60, 34, 60, v % 2]}
             out.append([nb, r, {"id": 0x0214, "data": [1]}])
     # every size 1..10 (and 0) for every known id, followed by records whose loss would show
-    for rid in KNOWN + [0x7777]:
+    for rid in KNOWN + [0x7777, 0x0000, 0xFFFF, 0x0100]:
         for sz in range(0, 11):
             r = {"id": rid, "data": [1] + [rng.randrange(256) for _ in range(sz)]}
             r["data"] = r["data"][:sz]
@@ -80,6 +80,11 @@ def lists(ctx: Ctx):
         pairs = list(itertools.product(GV, GV))
         for va, vb in (pairs if not ctx.quick else rng.sample(pairs, 10) + [(9, 0), (0, 9), (9, 2), (1, 0), (0, 1), (7, 0), (0, 7)]):
             out.append([{"id": a, "data": [va]}, {"id": b, "data": [vb]}])
+    # temperature records with limits at 0 and other boundary bytes, alone and next to another temperature record
+    for lims in ([0, 60, 34, 60, 34, 60], [34, 0, 34, 0, 34, 0], [0, 0, 0, 0, 0, 0], [34, 60, 0, 60, 34, 60], [34, 60, 34, 60, 0, 1], [1, 255, 1, 255, 1, 255], [255, 1, 255, 1, 255, 1]):
+        out.append([{"id": TEMP, "data": lims + [1]}])
+        out.append([{"id": 0x0212, "data": [1]}, {"id": TEMP, "data": lims}, {"id": 0x0214, "data": [1]}])
+        out.append([{"id": TEMP, "data": [34, 60, 34, 60, 34, 60, 0]}, {"id": TEMP, "data": lims + [0]}])
     # first page decodes to nothing
     out.append([{"id": 0x7777, "data": [1]}, {"id": 0x004B, "data": [1]}, {"id": 0x0001, "data": []}, {"id": 0x0214, "data": [1]},
                 {"id": 0x0212, "data": [1]}])
